@@ -12,7 +12,29 @@
    (harness/props/C20.py), and proved for the renderings of all Eval statements (C20_rendered_statements_wf) and for source
    statements NAME[k] = rhs in the documented syntax with any layout of terms, blank runs and continuation lines under the
    decidable source-side conditions dq_ok_ws + sep_ok (C20_source_any_blanks_wf; whole scripts: C20_source_any_blanks_script_graph).
-   Evaluation semantics: Eval.eval_expr (generic in the number type and in every arithmetic operation). *)
+   Evaluation semantics: Eval.eval_expr (generic in the number type and in every arithmetic operation).
+
+   WHAT IS PROVED ABOUT WHAT (independent review, 2026-10-02):
+   * The structural half ("one node per left-hand term carrying its equation; edges = exactly the right-hand terms") is proved for
+     the graph tool on every symbol list whose endogenous equations are well-formed (C20_graph_total + C20_tokenise_sound_complete);
+     C20_edges_exact / _nodes_exact / _edges_listed_once then describe graph_of, which is DEFINED from the token ids — they carry the
+     content only together with C20_graph_total.  The `_instance` theorems are computed examples.
+   * The semantic half ("perturbing a term without an edge changes nothing; every in-edge is read") is proved for Eval programs and
+     the graph of their own rendering GNorm.rstmt (C20_program_edges … C20_edge_is_read).  For PARSER output the graph reads
+     Symbol.equation while Symbol.code is what runs: C20_equation_and_code_same_tokens shows both are renderings of one token list
+     (a term NAME[t+k] in the one is self._NAME[t+k] in the other), under dq_ok_ws; that executing that code reads exactly those
+     cells is NOT proved for parser output — it rests on the oracle (`influence-without-edge`, `edge-not-read`: every equation run
+     alone on 4 data vectors, every cell perturbed by +-0.4 and +-7.3, tuple targets and named periods included).
+   * "is actually read" is proved only for conditional-free expressions that yield a value (C20_reads_logged, C20_edge_is_read);
+     for `a if c else b` the theorem only restates membership in expr_reads (the definition of the edge): it does NOT cover the clause.
+   * All parser-side theorems are about parse_model_nocheck / parse_equation_M, i.e. check_syntax=False; the default entry point
+     only rejects more (ParseModel.parse_model_M), and that extra rejection is not analysed here.
+   * Guards: neq_wf / sep_ok exclude finding #20 (blank before an index bracket), keyword glued to a braced term (`if{a}`, refuted
+     witness below), numerals with a letter (`2e5`; rejected by the default syntax check anyway), names that are keyword-prefixed
+     or reserved words (C14_reserved_word_parameter_refuted); dq_ok_ws additionally "#", line separators outside round brackets,
+     blanks between a function name and "(" — layouts only.
+   * K (harness) is stricter than the property: it compares node / edge insertion order and the non-variable nodes (functions,
+     keywords) with the model; the oracle compares only variable-like nodes, sets of edges and the data flow. *)
 From Coq Require Import String Ascii List Bool Arith ZArith.
 Import ListNotations.
 Require Import PyBase PyStr Lex Symbols ParseEq ParseModel GLex GNorm Graph GraphFacts GraphTheorems GraphEvalFacts GraphEvalWf GraphExamples GTokenise GTokeniseFacts.
@@ -353,6 +375,15 @@ Theorem C20_tuple_assignment_instance :
     end.
 Proof. exact ex_tuple_assignment. Qed.
 Print Assumptions C20_tuple_assignment_instance.
+
+(* the bridge between Symbol.equation (what the graph reads) and Symbol.code (what runs), for parser output: every symbol of a
+   source statement carries either nothing or exactly nflat T / cflat T for ONE token list T — the same tokens, a term written
+   NAME[t+k] in the equation and self._NAME[t+k] in the code (Denorm.tok_code), every other token identical *)
+Theorem C20_equation_and_code_same_tokens : forall (lay : layout) (q : neq) (syms : list symbol),
+  dq_ok_ws lay q = true -> parse_equation_M (denorm_text lay q) = POk syms ->
+  forall s, In s syms -> tame (nflat (nrm (whole_toks q))) (cflat (nrm (whole_toks q))) s.
+Proof. exact source_statement_texts. Qed.
+Print Assumptions C20_equation_and_code_same_tokens.
 
 (* ---- finding #19 repaired in /repo (b45daa1), stated positively: every variable-like dependency of the graph is a SERIES of
    the model (is_series: the symbol list holds a symbol of that name of type ENDOGENOUS / EXOGENOUS / PARAMETER / ERROR — the
